@@ -281,7 +281,7 @@ def run_chunked(ctx, specs, label, model_ok, chunk=60000):
 def run(ctx, model_ok):
     thorough = ctx.tier == "thorough"
     rng = ctx.rng
-    vals = lv.value_pool(rng, 150 if thorough else 75, 600 if thorough else 200)
+    vals = lv.value_pool(rng, 180 if thorough else 95, 600 if thorough else 200)
     n = len(vals)
     ctx.cov["pool"] = {"values": n, "shapes": len({lv.key(s) for s, _ in vals}),
                        "recipes": {r: sum(1 for _, x in vals if x == r) for r in lv.RECIPES},
